@@ -3,7 +3,7 @@ from __future__ import annotations
 
 from typing import List, Optional
 
-from .. import guards, registry, render, sym
+from .. import normal, guards, registry, render, sym
 from ..model import AnalysisError, Repo
 from ..report import Run
 from ..sym import T, const, param
@@ -298,11 +298,17 @@ def check(repo: Repo, run: Run) -> None:
     got = lift_ite(rec.return_term())
     ok = got == want
     if not ok:
-        # tolerate the equivalent name-first formulation via .get
-        for dflt in ((), (const(None),), (const(""),)):
-            alt_name = T("call", (T("attr", (tc, "get")), (eid,) + dflt, ()))
-            alt = T("ite", (T("cmp", ("in", alt_name, trace_reg)), call_with("on_going_traces"), call_with("on_going_events")))
-            ok = ok or got == alt
+        # any equivalent spelling: every alternative is one of the two dispatch calls, and the trace-domain call is
+        # chosen under a condition propositionally equivalent to `id in table and table[id] in <trace registry>`
+        # (or its name-first formulation through .get)
+        leaves = normal.guarded_leaves(got)
+        if leaves and all(v in (call_with("on_going_traces"), call_with("on_going_events")) for _, v in leaves):
+            chosen = normal.any_of(normal.pc_term(pc) for pc, v in leaves if v == call_with("on_going_traces"))
+            conds = [cond]
+            for dflt in ((), (const(None),), (const(""),)):
+                alt_name = T("call", (T("attr", (tc, "get")), (eid,) + dflt, ()))
+                conds.append(T("cmp", ("in", alt_name, trace_reg)))
+            ok = any(normal.bool_equiv(chosen, c) is True for c in conds)
     run.ob("K6", MOD, "TracesParser.feed", "domain selection", ok,
            "" if ok else "feed does not dispatch qualifiers_actions[event.func_qualifier](event, on_going_traces) exactly when the "
                          "code's name is a key of the trace-family registry and (event, on_going_events) otherwise",
@@ -351,6 +357,14 @@ def check(repo: Repo, run: Run) -> None:
         a = guards.assumptions(live[0].pc)
         ok = render.assume_lookup(a, T("cmp", ("in", first_id, tc))) is True and \
             render.assume_lookup(a, T("cmp", ("in", name, T("attr", (SELF, "handlers"))))) is True
+    elif len(live) == 1:
+        # the same decision through .get:  h = handlers.get(table[id]);  None if h is None else h(self, events)
+        for dflt in ((), (const(None),)):
+            got_h = T("call", (T("attr", (T("attr", (SELF, "handlers")), "get")), (name,) + dflt, ()))
+            if live[0].value == T("call", (got_h, (SELF, evs), ())):
+                a = guards.assumptions(live[0].pc)
+                ok = render.assume_lookup(a, T("cmp", ("in", first_id, tc))) is True and \
+                    render.assume_lookup(a, T("cmp", ("is", got_h, const(None)))) is False
     run.ob("K9", MOD, "TracesParser.parse_event_list", "None unless id in table and name has a decoder", ok,
            "parse_event_list is not `None unless events[0].eventid in trace_codes and its name in handlers, else "
            "handlers[name](self, events)`", line=fn.lineno)
